@@ -628,6 +628,10 @@ func runC11(c *ev.ChildEnv, res *ev.Result) {
 		if i%c.Batches != c.Batch {
 			continue
 		}
+		if res.HangCount() >= 3 {
+			res.Note("stopped after repeated hangs")
+			break
+		}
 		for r := 0; r < reps; r++ {
 			c.WAL("cut %+v", cc)
 			x := &c11Ctx{res: res, what: map[string]any{"scenario": "cut", "trunk": cc.trunk, "dir": cc.dir, "offset": cc.k}}
@@ -641,6 +645,9 @@ func runC11(c *ev.ChildEnv, res *ev.Result) {
 	nClose := tierN(c.Tier, 40, 600) / c.Batches
 	modes := []string{"local-mux", "remote-mux", "trunk", "conn-then-mux", "both"}
 	for i := 0; i < nClose; i++ {
+		if res.HangCount() >= 3 {
+			break
+		}
 		mode := modes[(i+c.Batch)%len(modes)]
 		K, W, closers, after := 1+g.IntN(4), 1+g.IntN(3), []int{1, 2, 4, 8}[g.IntN(4)], g.IntN(400)
 		trunk := []string{"socket", "pipe"}[g.IntN(2)]
@@ -651,6 +658,9 @@ func runC11(c *ev.ChildEnv, res *ev.Result) {
 		res.Seen(fmt.Sprintf("close|%s|closers%d|%s", mode, closers, trunk))
 	}
 	for _, trunk := range []string{"socket", "pipe"} {
+		if res.HangCount() >= 6 {
+			break
+		}
 		for q := 2; q <= 8; q++ {
 			if (q+c.Batch)%c.Batches != 0 && !thorough {
 				continue
